@@ -32,6 +32,7 @@ MC_TermVal ==
   {pool.tla_termval()}
 MC_Lits == {lit_txt}
 MC_Zeros == {zero_txt}
+MC_VarSizes == <<{", ".join(map(str, getattr(pool, "varsizes", ())))}>>
 MC_ZeroFi == <<{", ".join("<<" + ", ".join(f"<<{i}, {d}>>" for i, d in z) + ">>" for z in zerofi)}>>
 MC_IdxPool == <<{", ".join(map(str, idxpool))}>>
 MC_OpSet == {{{", ".join(json.dumps(o) for o in sorted(opset))}}}
@@ -52,6 +53,8 @@ def mc_cfg(pool, maxnodes, maxrank, maxdim, final_only=False, mikinds=("fixed", 
         f"NEnv = {getattr(pool, 'ntlc', pool.nenv)}",
         "EnvDirs <- MC_EnvDirs",
         f"NDir = {getattr(pool, 'ndir', 0)}",
+        f"NSpat = {getattr(pool, 'nspat', 0)}",
+        "VarSizes <- MC_VarSizes",
         f"SeedTerm = \"{getattr(pool, 'seed_term', '') or ''}\"",
         "Lits <- MC_Lits",
         "Zeros <- MC_Zeros",
@@ -162,10 +165,10 @@ class World:
                         dvals[(base, (m,))] = {c: pool.values[e][name][c + (m,)] for c in comps(bshape)}
                     continue
                 vals[t] = pool.values[e][name]
-                if mode == "spatial":
-                    for m in range(pool.ndir):
+                if mode in ("spatial", "mixed"):
+                    for m in range(pool.nspat):
                         dvals[(t, (m,))] = {c: pool.d1[e][name][c + (m,)] for c in comps(shape)}
-                        for n in range(m, pool.ndir):
+                        for n in range(m, pool.nspat):
                             dvals[(t, (m, n))] = {c: pool.d2[e][name][c + (m, n)] for c in comps(shape)}
             self.envs.append(TermEnv(vals, dvals))
         # TLC environment whose values are those of python environment e
@@ -556,7 +559,7 @@ def _alarm(signum, frame):
     raise _Timeout()
 
 
-def compare(w, rec, limit=20):
+def compare(w, rec, limit=60):
     """compare_inner under a wall-clock limit: a hang of the real code is an observable."""
     import signal
 
